@@ -75,3 +75,29 @@ Theorem built_value_within_half : forall ranges locs masters k Lk m,
   Qabs (interpolate (getDeltasRounded masters (deltaWeights ranges locs)) (map (supportScalarV Lk) (supports ranges locs)) - m) <= 1 # 2.
 Proof. exact ProofsSupports.built_value_within_half. Qed.
 Print Assumptions built_value_within_half.
+
+(* the master order: VariationModel sorts its locations with getMasterLocationsSortKeyFunc (rank, on-point axes, axis indices,
+   signs, absolute values — modelled and tied by correspondence to the order the real class computes); the sorted list is a
+   permutation of the input with fewer axes first, which is exactly what the support computation needs ... *)
+From FV Require C10.ModelSortKey C10.ProofsSortKey.
+From Coq Require Import Permutation.
+Theorem sorted_fewer_axes_first : forall locs i j Li Lj, (i < j)%nat ->
+  nth_error (ModelSortKey.sort_locations locs) i = Some Li -> nth_error (ModelSortKey.sort_locations locs) j = Some Lj ->
+  (ProofsSupports.count_nz Li <= ProofsSupports.count_nz Lj)%nat.
+Proof. exact ProofsSortKey.sorted_fewer_axes_first. Qed.
+Print Assumptions sorted_fewer_axes_first.
+
+Theorem sorted_is_permutation : forall locs, Permutation (ModelSortKey.sort_locations locs) locs.
+Proof. exact ProofsSortKey.sorted_is_permutation. Qed.
+Print Assumptions sorted_is_permutation.
+
+(* ... so that, with the masters in the model's own order, every master is reproduced: model_reproduces_masters_sorted without
+   its ordering hypothesis *)
+Theorem model_reproduces_masters_in_model_order : forall ranges locs0 masters k Lk m,
+  let locs := ModelSortKey.sort_locations locs0 in
+  (forall j L, nth_error locs j = Some L -> ProofsSupports.ranges_ok ranges L) ->
+  (forall i j Li Lj, (i < j)%nat -> nth_error locs i = Some Li -> nth_error locs j = Some Lj -> ProofsSupports.differ Lj Li) ->
+  length masters = length locs -> nth_error locs k = Some Lk -> nth_error masters k = Some m ->
+  interpolate (getDeltas masters (deltaWeights ranges locs)) (map (supportScalarV Lk) (supports ranges locs)) == m.
+Proof. exact ProofsSortKey.model_reproduces_masters_in_model_order. Qed.
+Print Assumptions model_reproduces_masters_in_model_order.
